@@ -108,7 +108,7 @@ Qed.
 
 Lemma sorted_app_left (a b : list entry) : sorted_desc (a ++ b) -> sorted_desc a.
 Proof.
-  induction a as [|x a IH]; [trivial|]. cbn [app sorted_desc]. intros [H1 H2]. split; [|exact (IH H2)].
+  induction a as [|x a IH]; [intros _; exact I|]. cbn [app sorted_desc]. intros [H1 H2]. split; [|exact (IH H2)].
   intros f Hf. apply H1. apply in_or_app. left; exact Hf.
 Qed.
 
@@ -125,4 +125,279 @@ Lemma latest_le_none_all (w : list entry) r : latest_le r w = None -> forall e, 
 Proof.
   induction w as [|x w IH]; [intros _ ? []|]. cbn [latest_le]. destruct (N.leb_spec (fst x) r); [discriminate|].
   intros Hn e [<-|He]; [assumption|exact (IH Hn e He)].
+Qed.
+
+Lemma aget_in_nodup {V} k (v : V) (l : list (N * V)) : NoDup (keys l) -> In (k, v) l -> aget k l = Some v.
+Proof.
+  induction l as [|[k2 v2] l IH]; intros Hnd Hin; [destruct Hin|].
+  inversion Hnd as [|? ? Hnin Hnd']; subst. cbn [aget]. destruct Hin as [[= -> ->]|Hin].
+  - rewrite N.eqb_refl. reflexivity.
+  - destruct (N.eqb_spec k2 k) as [->|]; [|exact (IH Hnd' Hin)].
+    exfalso. apply Hnin. unfold keys. rewrite in_map_iff. exists (k, v). split; [reflexivity|exact Hin].
+Qed.
+
+Definition increasing (l : list entry) : Prop :=
+  forall i j e f, nth_error l i = Some e -> nth_error l j = Some f -> (i < j)%nat -> fst e < fst f.
+
+(* postCommit: writeFrontIfExist of every row written, address by address *)
+Lemma cache_writes d : forall (upd : list (N * list entry)) (c : table),
+  NoDup (keys upd) -> NoDup (keys c) ->
+  (forall k l, In (k, l) upd -> upd_le (tget k c) d /\ (forall e, In e l -> d < fst e) /\ increasing l) ->
+  let c' := fold_left (fun c ku => fold_left (fun c e => write_front_if_exist (fst ku) e c) (snd ku) c) upd c in
+  NoDup (keys c') /\
+  forall k, tget k c' = match aget k upd with
+                        | Some l => match tget k c with [] => [] | _ => rev l ++ tget k c end
+                        | None => tget k c
+                        end.
+Proof.
+  induction upd as [|[k0 l0] upd IH]; intros c Hnu Hnc Hh; cbn [fold_left fst snd].
+  - split; [exact Hnc|reflexivity].
+  - inversion Hnu as [|? ? Hk0 Hnu']; subst.
+    set (c1 := fold_left (fun c e => write_front_if_exist k0 e c) l0 c).
+    destruct (Hh k0 l0 (or_introl eq_refl)) as (Hu0 & Hn0 & Hi0).
+    assert (Hc1 : tget k0 c1 = match tget k0 c with [] => [] | _ => rev l0 ++ tget k0 c end /\
+                  (forall k', k' <> k0 -> tget k' c1 = tget k' c) /\ NoDup (keys c1)).
+    { destruct (tget k0 c) as [|f0 r0] eqn:Ec.
+      - unfold c1. rewrite write_front_absent by exact Ec. split; [exact Ec|]. split; [reflexivity|exact Hnc].
+      - destruct (write_front_all k0 l0 c d) as (W1 & W2 & W3).
+        + rewrite Ec. discriminate.
+        + exact Hu0.
+        + exact Hn0.
+        + exact Hi0.
+        + fold c1 in W1, W2, W3. rewrite Ec in W1. split; [exact W1|]. split; [exact W2|exact (W3 Hnc)]. }
+    destruct Hc1 as (Hc1a & Hc1b & Hc1c).
+    destruct (IH c1 Hnu' Hc1c) as (G1 & G2).
+    { intros k l Hin. assert (Hne : k <> k0).
+      { intros ->. apply Hk0. unfold keys. rewrite in_map_iff. exists (k0, l). split; [reflexivity|exact Hin]. }
+      rewrite (Hc1b k Hne). apply (Hh k l). right; exact Hin. }
+    split; [exact G1|]. intros k. rewrite G2. cbn [aget]. destruct (N.eqb_spec k0 k) as [->|Hne].
+    + rewrite (aget_notin k upd Hk0). exact Hc1a.
+    + rewrite (Hc1b k) by congruence. reflexivity.
+Qed.
+
+Lemma latest_le_prefix (a b : list entry) r e : latest_le r a = Some e -> latest_le r (a ++ b) = Some e.
+Proof.
+  intros H. destruct (latest_le_app_cases a b r) as [(e' & H1 & H2)|[H1 _]]; [|congruence].
+  rewrite H1 in H. inversion H; subst. exact H2.
+Qed.
+
+(* ---------- commit ---------- *)
+Lemma params_offset_of supply0 s bs hm r :
+  o_latest s = N.of_nat (length bs) ->
+  o_params s = map (params_spec supply0 bs) (seq hm (Datatypes.S (length bs) - hm)) ->
+  (hm <= r)%nat -> (r <= length bs)%nat ->
+  params_offset s (N.of_nat r) = Some (r - hm)%nat.
+Proof.
+  intros Hlat Hpar H1 H2.
+  assert (Hplen : length (o_params s) = (Datatypes.S (length bs) - hm)%nat) by (rewrite Hpar, map_length, seq_length; reflexivity).
+  assert (Hst : params_start s = N.of_nat hm) by (unfold params_start; rewrite Hlat, Hplen; lia).
+  unfold params_offset. rewrite Hst, Hplen.
+  destruct (N.ltb_spec (N.of_nat r) (N.of_nat hm)); [lia|].
+  destruct (Nat.leb_spec (Datatypes.S (length bs) - hm) (N.to_nat (N.of_nat r - N.of_nat hm))); [lia|].
+  f_equal. lia.
+Qed.
+
+Lemma skipn_skipn {A} (a b : nat) (l : list A) : skipn a (skipn b l) = skipn (b + a) l.
+Proof.
+  revert l. induction b as [|b IH]; intros l; [reflexivity|]. destruct l as [|x l]; [destruct a; reflexivity|].
+  cbn [skipn Nat.add]. apply IH.
+Qed.
+
+Lemma In_firstn {A} (x : A) n l : In x (firstn n l) -> In x l.
+Proof. intros H. rewrite <- (firstn_skipn n l). apply in_or_app. left; exact H. Qed.
+
+Theorem inv_commit p G supply0 bs s off lowest s' :
+  Inv G supply0 bs s -> 1 <= op_maxbal p ->
+  commit p s off lowest = Some s' -> Inv G supply0 bs s'.
+Proof.
+  intros Hinv Hmb Hc. pose proof (inv_latest _ _ _ _ Hinv) as Hlat.
+  unfold commit in Hc.
+  destruct (Nat.ltb_spec (length (o_deltas s)) off) as [|Hoff]; [discriminate|].
+  destruct (Nat.eqb_spec off 0) as [|Hoff0]; [inversion Hc; subst s'; exact Hinv|].
+  destruct Hinv as [dn hm H Hdb Hdn Hdl Hand Hacc [HH Hhm] Hpar Hdbp Hrnd Hrows Hcnd Hcache].
+  assert (Hdlen : length (o_deltas s) = (length bs - dn)%nat) by (rewrite Hdl, map_length, skipn_length; reflexivity).
+  set (dn' := (dn + off)%nat).
+  assert (Enew : o_db s + N.of_nat off = N.of_nat dn') by (unfold dn'; lia).
+  rewrite Hdb in Hc.
+  rewrite (params_offset_of supply0 s bs hm dn Hlat Hpar) in Hc by lia.
+  replace (N.of_nat dn + N.of_nat off) with (N.of_nat dn') in Hc by lia.
+  rewrite (params_offset_of supply0 s bs hm dn' Hlat Hpar) in Hc by (unfold dn'; lia).
+  set (ds := firstn off (o_deltas s)) in *.
+  set (fb0 := N.of_nat dn' + 1 - op_maxbal p) in *.
+  set (fb := if (0 <? lowest) && (lowest <? fb0) then lowest else fb0) in *.
+  assert (Hfb : fb <= fb0) by (unfold fb; destruct ((0 <? lowest) && (lowest <? fb0)) eqn:E; [apply andb_true_iff in E as [_ E]; apply N.ltb_lt in E; lia|lia]).
+  assert (Hfb0 : fb0 <= N.of_nat dn') by (unfold fb0; lia).
+  destruct (new_round (op_unit p) (N.of_nat dn) ds (touched ds) (o_rows s)) as [[rows1 updated]|] eqn:Enr; [|discriminate].
+  destruct (drop_counts ds (touched ds) (o_accts s)) as [accts'|] eqn:Edc; [|discriminate].
+  inversion Hc; subst s'. clear Hc.
+  destruct (touched_spec ds) as [Htnd Htin].
+  destruct (new_round_spec _ _ _ _ _ _ _ Htnd Hrnd Enr) as (Hr1nd & Hr1out & Hr1in & Hupd_in & Hupd_nd).
+  (* the deltas being committed, as seen from the history *)
+  assert (Hds_all : ds ++ skipn off (o_deltas s) = o_deltas s) by apply firstn_skipn.
+  assert (Hacct_j : forall k (j : nat), (j <= off)%nat ->
+            acct_at G bs (dn + j) k = acct_of (upds k (N.of_nat dn) ds) (acct_at G bs dn k) (N.of_nat dn + N.of_nat j)).
+  { intros k j Hj. rewrite acct_at_add, <- Hdl.
+    rewrite (acct_of_upds k ds (N.of_nat dn) _ j) by (unfold ds; rewrite firstn_length; lia).
+    unfold ds. rewrite firstn_firstn. replace (Nat.min j off) with j by lia. reflexivity. }
+  (* new H *)
+  set (H' := Nat.max H (N.to_nat fb)).
+  assert (HH' : (H <= H')%nat /\ N.of_nat H' = N.max (N.of_nat H) fb) by (unfold H'; lia).
+  (* rows after onlineAccountsNewRound, per address *)
+  assert (Hrows1 : forall k, exists w,
+            tget k rows1 = w ++ tget k (o_rows s) /\
+            sorted_desc (w ++ tget k (o_rows s)) /\ wf_data (w ++ tget k (o_rows s)) /\
+            (forall e, In e w -> N.of_nat dn < fst e /\ fst e <= N.of_nat dn') /\
+            (forall r, N.of_nat dn <= r -> r <= N.of_nat dn' -> view (w ++ tget k (o_rows s)) r = tgt_at G bs r k)).
+  { intros k. destruct (Hrows k) as (Hsort & Hwf & Hupd & Hracc). rewrite Hdb in Hupd, Hracc.
+    assert (Hproc : exists w, process (op_unit p) (old_acct k (o_rows s)) (upds k (N.of_nat dn) ds) [] = Some w /\
+                              tget k rows1 = w ++ tget k (o_rows s)).
+    { destruct (in_dec N.eq_dec k (touched ds)) as [Hin|Hnin].
+      - destruct (Hr1in k Hin) as (w & Hp & Ht & _). exists w. split; assumption.
+      - exists []. rewrite (upds_untouched k _ ds Hnin). split; [reflexivity|]. cbn [app]. apply Hr1out. exact Hnin. }
+    destruct Hproc as (w & Hp & Ht). exists w. split; [exact Ht|].
+    assert (Hhd : old_acct k (o_rows s) = head_data ([] ++ tget k (o_rows s))) by reflexivity.
+    rewrite Hhd in Hp.
+    destruct (process_spec (op_unit p) (tget k (o_rows s)) (upds k (N.of_nat dn) ds) [] (acct_at G bs dn k) (N.of_nat dn) w
+                Hsort Hwf Hupd) as (new & Ew & Hs' & Hwf' & Hn1 & Hn2 & Hview).
+    - cbn [app]. rewrite (Hracc (N.of_nat dn)) by lia. unfold tgt_at. rewrite Nat2N.id. reflexivity.
+    - apply upds_rounds.
+    - exact Hp.
+    - rewrite app_nil_r in Ew. subst new. split; [exact Hs'|]. split; [exact Hwf'|]. split.
+      + intros e He. split; [exact (Hn1 e He)|]. destruct (Hn2 e He) as (a & r & Hin & ->).
+        apply upds_in in Hin. unfold ds in Hin. rewrite firstn_length in Hin. unfold dn'. lia.
+      + intros r Hlo Hhi. rewrite (Hview r Hlo). unfold tgt_at. f_equal.
+        replace (N.to_nat r) with (dn + N.to_nat (r - N.of_nat dn))%nat by lia.
+        rewrite (Hacct_j k (N.to_nat (r - N.of_nat dn))) by (unfold dn' in Hhi; lia).
+        f_equal. lia. }
+  apply (mkInv _ _ _ _ dn' (if Nat.ltb (N.to_nat (op_maxbal p) + length (skipn off (o_deltas s))) (length (o_params s))
+                            then (hm + (Datatypes.S (length bs) - hm - (N.to_nat (op_maxbal p) + length (skipn off (o_deltas s)))))%nat
+                            else hm) H');
+    cbn [o_db o_deltas o_accts o_params o_rows o_dbparams o_cache].
+  - (* db round *) reflexivity.
+  - unfold dn'. lia.
+  - (* deltas *) rewrite Hdl, skipn_map, skipn_skipn. reflexivity.
+  - (* accounts map: NoDup *)
+    destruct (drop_counts_spec ds (skipn off (o_deltas s)) (touched ds) (o_accts s) accts' Htnd Hand) as [Hnd' _]; try exact Edc.
+    + intros k. left. rewrite Hds_all. apply Hacc.
+    + intros k Hk. split; [rewrite Hds_all; apply Hacc|].
+      apply Htin in Hk. destruct Hk as (d & Hd & Hkd). intros Hz. rewrite count_zero_none in Hz.
+      specialize (Hz d Hd). apply aget_none_notin in Hz. exact (Hz Hkd).
+    + intros k Hk. left. apply count_zero_none. intros d Hd. destruct (aget k d) eqn:E; [|reflexivity].
+      exfalso. apply Hk. apply Htin. exists d. split; [exact Hd|exact (aget_some_in _ _ _ E)].
+    + exact Hnd'.
+  - (* accounts map: contents *)
+    destruct (drop_counts_spec ds (skipn off (o_deltas s)) (touched ds) (o_accts s) accts' Htnd Hand) as [_ Hget']; try exact Edc.
+    + intros k. left. rewrite Hds_all. apply Hacc.
+    + intros k Hk. split; [rewrite Hds_all; apply Hacc|].
+      apply Htin in Hk. destruct Hk as (d & Hd & Hkd). intros Hz. rewrite count_zero_none in Hz.
+      specialize (Hz d Hd). apply aget_none_notin in Hz. exact (Hz Hkd).
+    + intros k Hk. left. apply count_zero_none. intros d Hd. destruct (aget k d) eqn:E; [|reflexivity].
+      exfalso. apply Hk. apply Htin. exists d. split; [exact Hd|exact (aget_some_in _ _ _ E)].
+    + exact Hget'.
+  - (* H' <= hm' <= dn' *)
+    assert (Hplen : length (o_params s) = (Datatypes.S (length bs) - hm)%nat) by (rewrite Hpar, map_length, seq_length; reflexivity).
+    rewrite skipn_length, Hdlen, Hplen.
+    destruct (Nat.ltb_spec (N.to_nat (op_maxbal p) + (length bs - dn - off)) (Datatypes.S (length bs) - hm)) as [Ht|Ht];
+      unfold H', dn', fb0 in *; lia.
+  - (* params *)
+    assert (Hplen : length (o_params s) = (Datatypes.S (length bs) - hm)%nat) by (rewrite Hpar, map_length, seq_length; reflexivity).
+    destruct (Nat.ltb_spec (N.to_nat (op_maxbal p) + length (skipn off (o_deltas s))) (length (o_params s))) as [Ht|Ht].
+    + rewrite Hpar at 1. rewrite lastn_map_seq by (rewrite Hplen in Ht; lia). f_equal.
+      rewrite Hplen in Ht. f_equal. lia.
+    + exact Hpar.
+  - (* onlineroundparamstail *)
+    rewrite Hdbp. rewrite Hpar. rewrite skipn_map, firstn_map, skipn_seq, firstn_seq' by lia.
+    replace (hm + Datatypes.S (dn - hm))%nat with (Datatypes.S dn) by lia.
+    replace (dn' - hm - (dn - hm))%nat with off by (unfold dn'; lia).
+    rewrite map_length, seq_length.
+    replace (N.of_nat dn + 1) with (N.of_nat (Datatypes.S dn)) by lia.
+    rewrite (seqN_combine (params_spec supply0 bs) off (Datatypes.S dn)).
+    rewrite <- map_app.
+    replace (seq H (Datatypes.S dn - H) ++ seq (Datatypes.S dn) off) with (seq H (Datatypes.S dn' - H)).
+    2:{ replace (Datatypes.S dn' - H)%nat with ((Datatypes.S dn - H) + off)%nat by (unfold dn'; lia).
+        rewrite seq_app. f_equal. f_equal. lia. }
+    rewrite (filter_seq_ge (fun r => (N.of_nat r, params_spec supply0 bs r)) fb (fun r => eq_refl)).
+    fold H'. f_equal. f_equal. unfold H', dn', fb0 in *. lia.
+  - (* rows: NoDup *) rewrite trim_table_tmap. apply NoDup_tmap. exact Hr1nd.
+  - (* rows: per address *)
+    intros k. rewrite trim_table_tmap, tget_tmap by (try reflexivity; exact Hr1nd).
+    destruct (Hrows1 k) as (w & Ew & Hs' & Hwf' & Hwb & Hview). rewrite Ew.
+    destruct (Hrows k) as (Hsort & Hwf & Hupd & Hracc). rewrite Hdb in Hupd, Hracc.
+    split; [apply trim_sorted; exact Hs'|]. split; [apply trim_wf; exact Hwf'|]. split.
+    + apply trim_upd_le. intros e He. apply in_app_or in He as [He|He].
+      * exact (proj2 (Hwb e He)).
+      * specialize (Hupd e He). unfold dn'. lia.
+    + intros r Hlo Hhi. rewrite trim_view by (try exact Hwf'; lia).
+      destruct (N.le_gt_cases r (N.of_nat dn)) as [Hle|Hgt].
+      * rewrite view_app_new by (intros e He; specialize (Hwb e He); lia). apply Hracc; lia.
+      * apply Hview; lia.
+  - (* cache: NoDup *)
+    rewrite prune_cache_tmap. apply NoDup_tmap.
+    destruct (cache_writes (N.of_nat dn) updated (o_cache s) Hupd_nd Hcnd) as [Gnd _]; [|exact Gnd].
+    intros k l Hin. destruct (Hcache k) as [Hcu _]. rewrite Hdb in Hcu. split; [exact Hcu|].
+    pose proof (Hupd_in _ _ Hin) as Htk. destruct (Hr1in k Htk) as (w & Hp & Ht & Hu).
+    assert (l = rev w).
+    { pose proof (aget_in_nodup _ _ _ Hupd_nd Hin) as E1. pose proof (aget_in_nodup _ _ _ Hupd_nd Hu) as E2. congruence. }
+    subst l. destruct (Hrows1 k) as (w2 & Ew2 & Hs2 & _ & Hwb & _). rewrite Ht in Ew2. apply app_inv_tail in Ew2. subst w2.
+    split.
+    + intros e He. apply in_rev in He. exact (proj1 (Hwb e He)).
+    + unfold increasing. apply sorted_rev_inc. exact (sorted_app_left _ _ Hs2).
+  - (* cache: per address *)
+    intros k. rewrite prune_cache_tmap.
+    set (cache1 := fold_left (fun c ku => fold_left (fun c e => write_front_if_exist (fst ku) e c) (snd ku) c) updated (o_cache s)).
+    destruct (cache_writes (N.of_nat dn) updated (o_cache s) Hupd_nd Hcnd) as [Gnd Gget].
+    { intros k' l Hin. destruct (Hcache k') as [Hcu' _]. rewrite Hdb in Hcu'. split; [exact Hcu'|].
+      pose proof (Hupd_in _ _ Hin) as Htk. destruct (Hr1in k' Htk) as (w & Hp & Ht & Hu).
+      assert (l = rev w).
+      { pose proof (aget_in_nodup _ _ _ Hupd_nd Hin) as E1. pose proof (aget_in_nodup _ _ _ Hupd_nd Hu) as E2. congruence. }
+      subst l. destruct (Hrows1 k') as (w2 & Ew2 & Hs2 & _ & Hwb & _). rewrite Ht in Ew2. apply app_inv_tail in Ew2. subst w2.
+      split.
+      - intros e He. apply in_rev in He. exact (proj1 (Hwb e He)).
+      - unfold increasing. apply sorted_rev_inc. exact (sorted_app_left _ _ Hs2). }
+    fold cache1 in Gnd, Gget.
+    rewrite tget_tmap by (try reflexivity; exact Gnd).
+    destruct (Hcache k) as (Hcu & Hca). rewrite Hdb in Hcu, Hca.
+    destruct (Hrows k) as (Hsort & Hwf & Hupd & Hracc). rewrite Hdb in Hupd, Hracc.
+    destruct (Hrows1 k) as (w & Ew & Hs' & Hwf' & Hwb & Hview).
+    (* what the writes left for k: nothing, or the rows written in front of what was cached *)
+    assert (Hk1 : tget k cache1 = [] \/ tget k cache1 = w ++ tget k (o_cache s)).
+    { rewrite Gget. destruct (in_dec N.eq_dec k (touched ds)) as [Hin|Hnin].
+      - destruct (Hr1in k Hin) as (w3 & Hp3 & Ht3 & Hu3). rewrite Ht3 in Ew. apply app_inv_tail in Ew. subst w3.
+        rewrite (aget_in_nodup _ _ _ Hupd_nd Hu3), rev_involutive.
+        destruct (tget k (o_cache s)); [left; reflexivity|right; reflexivity].
+      - assert (Hnone : aget k updated = None).
+        { apply aget_notin. intros Hk. unfold keys in Hk. rewrite in_map_iff in Hk. destruct Hk as ([k2 l2] & E & Hl).
+          cbn in E. subst k2. exact (Hnin (Hupd_in _ _ Hl)). }
+        rewrite Hnone. right.
+        rewrite (Hr1out k Hnin) in Ew. assert (w = []).
+        { destruct w as [|x w']; [reflexivity|]. exfalso.
+          assert (Hl : length (tget k (o_rows s)) = length ((x :: w') ++ tget k (o_rows s))) by (rewrite <- Ew; reflexivity).
+          rewrite app_length in Hl. cbn in Hl. lia. }
+        subst w. reflexivity. }
+    assert (Hacc1 : upd_le (tget k cache1) (N.of_nat dn') /\
+                    cache_acc G bs k (tget k cache1) (N.of_nat H) (N.of_nat dn')).
+    { destruct Hk1 as [E|E]; rewrite E.
+      - split; [intros ? []|intros ? ? _ _ Hc; discriminate].
+      - split.
+        + intros e He. apply in_app_or in He as [He|He]; [exact (proj2 (Hwb e He))|].
+          specialize (Hcu e He). unfold dn'. lia.
+        + intros r e Hlo Hhi He.
+          destruct (latest_le_app_cases w (tget k (o_cache s)) r) as [(e' & Hw1 & Hw2)|[Hw1 Hw2]].
+          * (* answered by a row written now *)
+            rewrite Hw2 in He. inversion He; subst e'.
+            pose proof (latest_le_in _ _ _ Hw1) as [Hin Hle]. destruct (Hwb e Hin) as [Hgt _].
+            rewrite <- (Hview r) by lia. unfold view. rewrite (latest_le_prefix _ _ _ _ Hw1). reflexivity.
+          * rewrite Hw2 in He.
+            destruct (N.le_gt_cases r (N.of_nat dn)) as [Hle|Hgt]; [exact (Hca r e Hlo Hle He)|].
+            rewrite (latest_le_beyond _ _ r Hcu) in He by lia.
+            rewrite (Hca (N.of_nat dn) e) by (try lia; exact He).
+            rewrite <- (Hview r) by lia. rewrite <- (Hracc (N.of_nat dn)) by lia.
+            rewrite view_app_new by (apply latest_le_none_all; exact Hw1).
+            symmetry. apply view_beyond; [exact Hupd|lia]. }
+    destruct Hacc1 as (Hu1 & Ha1).
+    destruct (prune_addr_prefix (N.of_nat dn' + 1 - op_maxbal p) (tget k cache1)) as [E|(dropped & E)].
+    + rewrite E. split; [intros ? []|intros ? ? _ _ Hc; discriminate].
+    + split.
+      * intros e He. apply Hu1. rewrite E. apply in_or_app. left; exact He.
+      * intros r e Hlo Hhi He. apply (Ha1 r e); [lia|exact Hhi|]. rewrite E. apply latest_le_prefix. exact He.
 Qed.
